@@ -3,6 +3,7 @@ package main
 
 import (
 	"fmt"
+	"runtime"
 	"time"
 	"unsafe"
 
@@ -20,12 +21,23 @@ type rec struct {
 	ret       [][3]int
 	sawDone   []bool
 	later     func() ([3]int, bool) // a caller arriving after quiescence
+	exit      string
+	abnormal  bool   // caller 0's action ran (and left through Goexit / panic)
+	returned  []bool // per caller: Do returned normally
 }
 
 // action is what every caller passes to Do (with its own id): two internal
 // scheduling points, the completion flag written last.
 func (r *rec) action(i int) (int, int, int) {
 	r.invoked[i]++
+	if i == 0 && r.exit != "" {
+		r.abnormal = true
+		vrt.Yield("action.step1", unsafe.Pointer(&r.partial), true)
+		if r.exit == "goexit" {
+			runtime.Goexit()
+		}
+		panic("action failed")
+	}
 	vrt.Yield("action.step1", unsafe.Pointer(&r.partial), true)
 	r.partial = i
 	vrt.Yield("action.step2", unsafe.Pointer(&r.partial), true)
@@ -33,11 +45,20 @@ func (r *rec) action(i int) (int, int, int) {
 	return 100 + i, 200 + i, 300 + i
 }
 
-func scenario(arity, n int, bound int) schk.Scenario {
+func scenario(arity, n int, bound int) schk.Scenario { return scenarioX(arity, n, bound, "") }
+
+// scenarioX: exit = "" (all actions return), "goexit" (caller 0's action leaves through
+// runtime.Goexit, like t.FailNow inside it) or "panic" (caller 0's action panics and caller 0
+// recovers around Do). Either way that action counts as THE invocation: no other function may run.
+func scenarioX(arity, n int, bound int, exit string) schk.Scenario {
+	name := fmt.Sprintf("Once%d/%d-callers", arity, n)
+	if exit != "" {
+		name += "/caller0-action-" + exit
+	}
 	return schk.Scenario{
-		Name: fmt.Sprintf("Once%d/%d-callers", arity, n), Bound: bound, RaceBound: min(bound, 2),
+		Name: name, Bound: bound, RaceBound: min(bound, 2),
 		Body: func(s *vrt.Sched) any {
-			r := &rec{n: n, invoked: make([]int, n+1), ret: make([][3]int, n), sawDone: make([]bool, n)}
+			r := &rec{n: n, invoked: make([]int, n+1), ret: make([][3]int, n), sawDone: make([]bool, n), exit: exit, returned: make([]bool, n)}
 			var do func(i int) [3]int
 			switch arity {
 			case 1:
@@ -62,10 +83,14 @@ func scenario(arity, n int, bound int) schk.Scenario {
 			for i := 0; i < n; i++ {
 				i := i
 				s.Spawn(fmt.Sprintf("caller%d", i), func() {
+					if exit == "panic" && i == 0 {
+						defer func() { recover() }()
+					}
 					vrt.Begin()
 					got := do(i)
 					vrt.End()
 					r.ret[i] = got
+					r.returned[i] = true
 					r.sawDone[i] = r.completed // a plain read: must be ordered after the action by Do itself
 				})
 			}
@@ -86,6 +111,15 @@ func scenario(arity, n int, bound int) schk.Scenario {
 			}
 			if total != 1 {
 				return schk.Failf("not-exactly-once", "the supplied functions were invoked %d times in total (per caller %v), want exactly 1", total, r.invoked), ""
+			}
+			if r.abnormal {
+				// the one invocation left through Goexit / panic: there are no results to share, but no
+				// other function may have run, now or later
+				r.later()
+				if r.invoked[r.n] != 0 {
+					return schk.Failf("not-exactly-once", "after an action that left through %s a later Do ran its function", r.exit), ""
+				}
+				return nil, "abnormal-exit-of-the-one-invocation"
 			}
 			want := [3]int{100 + winner, 200 + winner, 300 + winner}
 			for i := 0; i < r.n; i++ {
@@ -116,6 +150,9 @@ func main() {
 		scs = append(scs, scenario(arity, 3, ev.Pick(r, 3, -1)))
 		if r.Thorough() {
 			scs = append(scs, scenario(arity, 4, 2))
+		}
+		for _, exit := range []string{"goexit", "panic"} {
+			scs = append(scs, scenarioX(arity, 2, -1, exit), scenarioX(arity, 3, ev.Pick(r, 2, -1), exit))
 		}
 	}
 	schk.Main(r, scs, ev.Pick(r, 40*time.Second, 600*time.Second), func(r *ev.Run) {
